@@ -223,6 +223,7 @@ namespace {
     // input class of its own: see C24 (divided differences of the logarithm)
     std::string key = "C23.convert." + nm;
     if (S == TO::DT_DELOG && s.sc.doubleEigenvalue3d) key = "C23.convert.from_DT_DELOG.double_eigenvalue_3d";
+    if (S == TO::DT_DELOG && s.sc.equalLarge) key = "C23.convert.from_DT_DELOG.equal_large";
     if (S == TO::DT_DELOG && s.sc.tiny) key = "C23.convert.from_DT_DELOG.tiny_gap";
     compareWithT4(c, Kt, rt.D, N, tol, key, nm);
   }
@@ -302,6 +303,7 @@ namespace {
     if (A == TO::DT_DELOG && s.sc.relax() > 1) rel = std::max(rel, R(1e-6L)) * s.sc.relax();
     std::string key = "C23.compose." + nm;
     if (A == TO::DT_DELOG && s.sc.doubleEigenvalue3d) key = "C23.compose.from_DT_DELOG.double_eigenvalue_3d";
+    if (A == TO::DT_DELOG && s.sc.equalLarge) key = "C23.compose.from_DT_DELOG.equal_large";
     if (A == TO::DT_DELOG && s.sc.tiny) key = "C23.compose.from_DT_DELOG.tiny_gap";
     compareOps(c, K1, K2, rel * m, key, nm);
   }
